@@ -54,17 +54,24 @@ KeptCells(e) == IF e.op = "restrict" THEN VSet(e.par.elements) ELSE DOMAIN Pre(e
 
 \* ---------------------------------------------------------------------------
 \* well-formedness (evaluated first; everything else is guarded by it)
+PDim(e) == IF Len(e.pre[1].p) = 0 THEN 0 ELSE Len(e.pre[1].p[1])
 ParWellFormed(e) ==
   CASE e.op \in SubsetOps -> /\ \A j \in DOMAIN e.par.elements : e.par.elements[j] \in DOMAIN Pre(e).t
                              /\ IsInjectiveSeq(e.par.elements)
     [] e.op = "trace"      -> /\ Len(e.par.fv) = Len(e.par.facets)
                               /\ \A j \in DOMAIN e.par.fv : \A q \in DOMAIN e.par.fv[j] : e.par.fv[j][q] \in 1..Len(Pre(e).p)
-    [] e.op = "scaled"     -> \A i \in DOMAIN e.par.fden : e.par.fden[i] > 0
+    [] e.op = "scaled"     -> /\ Len(e.par.fnum) = PDim(e) /\ Len(e.par.fden) = PDim(e)
+                              /\ \A i \in DOMAIN e.par.fden : e.par.fden[i] > 0
+    [] e.op = "translated" -> Len(e.par.d) = PDim(e)
+    [] e.op = "mirrored"   -> e.par.axis \in 1..PDim(e)
+    [] e.op = "morphed"    -> /\ Len(e.par.A) = PDim(e) /\ Len(e.par.b) = PDim(e)
+                              /\ \A i \in DOMAIN e.par.A : Len(e.par.A[i]) = PDim(e)
     [] OTHER               -> TRUE
 SurgWellFormed(e) ==
   /\ e.op \in Ops /\ Len(e.pre) >= 1 /\ Len(e.post) >= 1
   /\ \A j \in DOMAIN e.pre  : MeshWellFormed(e.pre[j])
-  /\ \A j \in DOMAIN e.post : /\ \A k \in DOMAIN e.post[j].t : \A i \in DOMAIN e.post[j].t[k] :
+  /\ \A j \in DOMAIN e.post : /\ e.post[j].kind \in KnownKinds
+                              /\ \A k \in DOMAIN e.post[j].t : \A i \in DOMAIN e.post[j].t[k] :
                                     e.post[j].t[k][i] \in 1..Len(e.post[j].p)
                               /\ (e.op # "trace" => \A k \in DOMAIN e.post[j].t : Len(e.post[j].t[k]) = NNodes(e.post[j].kind))
   /\ ParWellFormed(e)
@@ -112,6 +119,7 @@ PartitionOfParent(e, k, J) ==
                     o2 == CHOOSE x \in GeoCell(post, jj) : x \notin setOf(j, fi)
                 IN Side(seqOf(j, fi), opp(j, fi)) * Side(seqOf(j, fi), o2) = -1   \* ... lying on the other side
 SplitOK(e) ==
+  /\ \A j \in DOMAIN Post(e).t : Cardinality(GeoCell(Post(e), j)) = NNodes(Post(e).kind)
   /\ \A j \in DOMAIN Post(e).t : HasParent(e, j)
   /\ \A k \in DOMAIN Pre(e).t :
        LET J == {j \in DOMAIN Post(e).t : ParentOf(e, j) = k} IN J # {} /\ PartitionOfParent(e, k, J)
@@ -135,6 +143,24 @@ CellsAreExpectedPointSets(e) ==
        [] e.op = "trace"        -> GeoCells(Post(e)) = {{Project(x, e.par.proj) : x \in PtsOf(Pre(e), e.par.fv[j])} :
                                                           j \in DOMAIN e.par.fv}
        [] OTHER                 -> TRUE
+
+\* named deviation (extrusion ignores the cells of its line operands): mesh_tri_1.py:393-419 stacks the cross-section
+\* between CONSECUTIVE SORTED POINTS of the line mesh, mesh_line_1.py:30-37 hands the raw points of both line meshes
+\* to MeshQuad1.init_tensor - the cell lists of the line operands are never read.  When the result is exactly that
+\* and differs from the product of the operands' cells (a line operand with a gap or an unused point), the failure is
+\* reported under Deviation_ExtrusionIgnoresLineCells
+LinePts(m)    == {m.p[v][1] : v \in DOMAIN m.p}
+ConsecSegs(m) == {{<<a>>, <<b>>} : a, b \in LinePts(m)} \ {{<<a>>} : a \in LinePts(m)}
+ConsecutiveSegments(m) == {sg \in ConsecSegs(m) :
+                             LET lo == MinSet({x[1] : x \in sg}) hi == MaxSet({x[1] : x \in sg}) IN
+                             ~\E c \in LinePts(m) : lo < c /\ c < hi}
+CodeExtrudeCells(e) ==
+  {ProductCell(c1, c2) : c1 \in (IF e.pre[1].kind = "line" THEN ConsecutiveSegments(e.pre[1]) ELSE GeoCells(e.pre[1])),
+                         c2 \in ConsecutiveSegments(e.pre[2])}
+ExtrusionIgnoresLineCells(e) ==
+  /\ e.op = "extrude" /\ Len(e.pre) = 2 /\ e.pre[2].kind = "line"
+  /\ GeoCells(Post(e)) = CodeExtrudeCells(e)
+  /\ CodeExtrudeCells(e) # {ProductCell(c1, c2) : c1 \in GeoCells(e.pre[1]), c2 \in GeoCells(e.pre[2])}
 
 \* ---------------------------------------------------------------------------
 \* SameMeasure: exact integer measures * d!
@@ -237,10 +263,13 @@ SurgeryClauses(e) ==
   ELSE LET carried == PreTagsOK(e) => CarriedTagsSameDesignation(e)
            removed == PreTagsOK(e) => RemovedEntitiesUntagged(e)
            dev15   == ~(carried /\ removed) /\ DupKeepsFacetIds(e)
+           cells   == CellsAreExpectedPointSets(e)
+           devExt  == ~cells /\ ExtrusionIgnoresLineCells(e)
        IN [ NoUnexpectedError |-> TRUE, WellFormed |-> TRUE,
             Valid |-> Valid(e),
-            CellsAreExpectedPointSets |-> CellsAreExpectedPointSets(e),
-            SameMeasure |-> SameMeasure(e),
+            CellsAreExpectedPointSets |-> cells \/ devExt,
+            SameMeasure |-> SameMeasure(e) \/ devExt,
+            Deviation_ExtrusionIgnoresLineCells |-> ~devExt,
             SharedVertexStructure |-> SharedVertexStructure(e),
             CarriedTagsSameDesignation |-> carried \/ dev15,
             RemovedEntitiesUntagged |-> removed \/ dev15,
